@@ -214,11 +214,13 @@ for n in (0, 1, 3, 6):
 for l, tier in ((0, "q"), (1, "q"), (2, "q"), (3, "ta")):
     H(f"c09_{tier}_list_l{l}", "C09", f"c09::list::<{l}, _>", f"ArrayVec of {l} u16 values: comma-joined decimal elements in "
       f"order; empty list -> error", f"all u16 element values", cap_s=(1200 if tier == "q" else 3600), mem_gb=8, unwind=24)
-for k, d in ((0, "custom error, symbolic 3-byte printable message"), (1, "custom error with symbolic 2-byte extended text")):
-    H(f"c09_q_error_item_k{k}", "C09", f"c09::error_item::<{k}, _>", f"error-queue item ({d}) formatted as "
-      f"code,\"message[;extended]\": code decodes to the number, the text is a well-formed quoted string that decodes to "
-      f"the message", "all i16 numbers; all printable message / extended bytes (incl. the double quote)", cap_s=1800,
-      mem_gb=16, unwind=16, also=["C13"], stubset="ascii")
+for ml, xl, tier in ((2, 0, "q"), (1, 1, "t"), (3, 0, "t"), (3, 2, "ta")):
+    H(f"c09_{tier}_error_item_m{ml}_x{xl}", "C09", f"c09::error_item::<{ml}, {xl}, _>", f"error-queue item: custom error, "
+      f"any number, {ml}-byte symbolic printable message" + (f", {xl}-byte symbolic extended text" if xl else "") +
+      ": formatted as code,\"message[;extended]\": the code decodes to the number, the text is a well-formed quoted "
+      "string (quotes doubled) that decodes to the message", "all i16 numbers; all printable message / extended bytes "
+      "(incl. the double quote)", cap_s=(900 if tier == "q" else 3600), mem_gb=(10 if tier == "q" else 16), unwind=16,
+      also=["C13"], stubset="ascii")
 H("c09_q_std_messages_plain", "C09", "c09::std_messages_plain", "every standard error message is printable ASCII without a "
   "double quote (so formatting a standard error item is the custom-message case)", "all standard variants", cap_s=600,
   mem_gb=4, unwind=64, also=["C13"])
